@@ -473,6 +473,19 @@ func c04Build(t *rapid.T) (record []byte, key *hello.Key, classes []string, desc
 			}
 			msg = outer.Message()
 		}
+		if hasFault(fs, "outer_has_outer_extensions") && len(fs) == 1 && rapid.IntRange(0, 2).Draw(t, "ohm_undecryptable") == 0 {
+			// the rule is about the outer hello as such: it holds whether or not a key opens the payload
+			i := outer.Find(hello.ExtECH)
+			switch rapid.IntRange(0, 1).Draw(t, "ohm_undecryptable_how") {
+			case 0:
+				outer.Exts[i].Data[5] ^= byte(1 + uniform(t, "ohm_idflip", 255)) // config id nobody holds
+			default:
+				d := outer.Exts[i].Data
+				d[len(d)-1] ^= 0x01 // payload no longer authentic
+			}
+			msg = outer.Message()
+			desc = append(desc, "ech_payload_not_opened_by_any_key")
+		}
 		if hasFault(fs, "outer_ech_ext_empty_body") {
 			i := outer.Find(hello.ExtECH)
 			outer.Exts[i].Data = nil
